@@ -250,6 +250,32 @@ def run_stream(prop, cfg, stream, seed, budget, extra=()):
             "log": p.stdout[-2000:], "probe_s": round(time.time() - t0, 2)}
 
 
+def localize_crash(prop, cfg, stream, seed, budget, extra=()):
+    """The probe process itself died (abort, signal) while running a stream: find the smallest budget
+    at which it still dies, so that the replay names one operation.  Streams generate their operations
+    sequentially from the seed, so budget k runs exactly the first k operations."""
+    def dies(k):
+        out = os.path.join(OPS, prop, f"{cfg}-{stream}-{seed}.crash.txt")
+        cmd = [probe_path(cfg), stream, "--seed", str(seed), "--budget", str(k), "--out", out] + list(extra)
+        p = subprocess.run(cmd, stdout=subprocess.PIPE, stderr=subprocess.STDOUT, text=True, env=ENV)
+        return p.returncode != 0, p.returncode, p.stdout[-600:], cmd
+    d, rc, log, cmd = dies(budget)
+    if not d:
+        return None
+    lo, hi = 0, budget          # dies(hi) holds; dies(lo) assumed false
+    best = (budget, rc, log, cmd)
+    while hi - lo > 1:
+        mid = (lo + hi) // 2
+        d, rc, log, cmd = dies(mid)
+        if d:
+            hi, best = mid, (mid, rc, log, cmd)
+        else:
+            lo = mid
+    k, rc, log, cmd = best
+    return {"operation_index": k, "rc": rc, "log": log,
+            "cmd": " ".join(c for c in cmd if not c.endswith(".crash.txt") and c != "--out")}
+
+
 SUMMARY_RE = re.compile(r"SUMMARY lines=(\d+) ops=(\d+) model_mm=(\d+) spec_mm=(\d+) self_mm=(\d+) unknown=(\d+) oracle=(\d+)")
 
 
